@@ -279,19 +279,27 @@ Definition num_prop (j : json) (k : string) : option json :=
    0: if (doc is an object with a numeric a) emit(doc.a, meta.id)
    1: emit(meta.id, null)
    2: if (meta.xattrs && meta.xattrs._sync !== undefined) emit(meta.id, meta.xattrs._sync)
-   3: if (doc is an object with a numeric a) { emit([doc.a, 1], null); emit([doc.a, meta.id], null) }      *)
+   3: if (doc is an object with a numeric a) { emit([doc.a, 1], null); emit([doc.a, meta.id], null) }
+   4: if (doc is an object with a string s) emit(doc.s, null)                                              *)
+Definition str_prop (j : json) (k : string) : option json :=
+  match j with
+  | JObj m => match obj_get k m with Some (JStr x) => Some (JStr x) | _ => None end
+  | _ => None
+  end.
+
 Definition mapfn (id : N) (key : string) (r : row) : list (json * json) :=
   match map_doc r with
   | None => []                                (* the body does not parse: the function fails, nothing is emitted *)
   | Some doc =>
-      match id mod 4 with
+      match id mod 5 with
       | 0 => match num_prop doc "a" with Some a => [(a, JStr key)] | None => [] end
       | 1 => [(JStr key, JNull)]
       | 2 => match alookup String.eqb "_sync" (map_xattrs r) with
              | Some v => match jparse v with Some j => [(JStr key, j)] | None => [] end
              | None => []
              end
-      | _ => match num_prop doc "a" with Some a => [(JArr [a; JNum false 1], JNull); (JArr [a; JStr key], JNull)] | None => [] end
+      | 3 => match num_prop doc "a" with Some a => [(JArr [a; JNum false 1], JNull); (JArr [a; JStr key], JNull)] | None => [] end
+      | _ => match str_prop doc "s" with Some x => [(x, JNull)] | None => [] end
       end
   end.
 
@@ -316,6 +324,30 @@ Definition update_view (s : store) (v : vdef) : vdef :=
 
 (* JSON collation of emitted keys (sgbucket.JSONCollator): null < false < true < numbers < strings <
    arrays < objects; the family emits non-negative integers, lower-case ASCII strings and arrays of them *)
+(* Strings collate by the Unicode collation algorithm (golang.org/x/text/collate, root locale).  On ASCII
+   letters and digits - the strings the view family emits - that is: compare the strings with case folded
+   (digits before letters, letters alphabetically; a proper prefix first); if they are equal that way, the
+   first position where the cases differ decides, lower case first.  Other characters compare by code
+   point here, which is NOT the algorithm: the family does not emit them.                               *)
+Definition lower_ascii (c : ascii) : ascii :=
+  let n := nat_of_ascii c in if (Nat.leb 65 n && Nat.leb n 90)%bool then ascii_of_nat (n + 32) else c.
+Fixpoint lower_string (s : string) : string :=
+  match s with EmptyString => EmptyString | String c r => String (lower_ascii c) (lower_string r) end.
+Fixpoint case_compare (a b : string) : comparison :=
+  match a, b with
+  | String x ra, String y rb =>
+      if Ascii.eqb x y then case_compare ra rb
+      else if Ascii.eqb (lower_ascii x) x then Lt else Gt       (* x is the lower-case one *)
+  | EmptyString, EmptyString => Eq
+  | EmptyString, _ => Lt
+  | _, EmptyString => Gt
+  end.
+Definition ucompare (a b : string) : comparison :=
+  match String.compare (lower_string a) (lower_string b) with
+  | Eq => case_compare a b
+  | c => c
+  end.
+
 Definition jrank (j : json) : N :=
   match j with JNull => 0 | JBool false => 1 | JBool true => 2 | JNum _ _ => 3 | JStr _ => 4 | JArr _ => 5 | JObj _ => 6 end.
 
@@ -328,7 +360,7 @@ Fixpoint jcollate (a b : json) : comparison :=
       | true, false => Lt
       | false, true => Gt
       end
-  | JStr x, JStr y => String.compare x y
+  | JStr x, JStr y => ucompare x y
   | JArr la, JArr lb =>
       (fix go (la lb : list json) : comparison :=
          match la, lb with
@@ -374,9 +406,9 @@ Definition select_rows (p : vparams) (rows : list vrow) : list vrow :=
   let ordered := if vp_descending p then rev inrange else inrange in
   match vp_limit p with Some n => firstn (N.to_nat n) ordered | None => ordered end.
 
-(* views 4..7 are views 0..3 with the reduce function "_count": with reduce=true the selected rows are replaced
+(* views 5..9 are views 0..4 with the reduce function "_count": with reduce=true the selected rows are replaced
    by one row (no id, key null) holding their number - or by nothing if there are none (sgbucket ProcessParsed) *)
-Definition view_reduces (m : N) : bool := 4 <=? m.
+Definition view_reduces (m : N) : bool := 5 <=? m.
 Definition reduce_rows (p : vparams) (m : N) (rows : list vrow) : list vrow :=
   if vp_reduce p && view_reduces m
   then match rows with [] => [] | _ => [(""%string, JNull, JNum false (N.of_nat (List.length rows)))] end
